@@ -1,7 +1,8 @@
------------------------------- MODULE MC_UTPM ------------------------------
+\* GENERATED from MC_UTPM.tla by tools/gen_complex.py - do not edit
+------------------------------ MODULE MC_CUTPM ------------------------------
 (* Bounded instances of UTPMachine: M (exhaustive, design invariants) and the   *)
 (* R generator (every state prints its behaviour and the projected heap).       *)
-EXTENDS UTPMachine, Json
+EXTENDS CUTPMachine, Json
 
 CONSTANT Emit
 
